@@ -41,6 +41,46 @@ chk("C09","exploration",
  "black-box oracle: after each phase a probe RPC with a fresh context to every node must be answered (3 attempts, hang rule with goroutine-dump witness and wedge signature).",
  "Usability is decided in bounded form. Two wedges found this way on the original tree were repaired (fix: 328fbda).",
  "runtime monitoring: black-box probe oracle after hostile phases, hook-steered schedules, hang rule witness","DESIGN.md 6 C09","usable")
+chk("C05","exploration",
+ "Concurrent soaks (8-64 goroutines, one manager, 5-9 nodes, 6-20 overlapping configurations, all 21 call kinds, delayed / late / never replies, cancelled and timed-out contexts, oversized writes, server restarts) with an online oracle inside every quorum function and on every return: own token, node stamp = key, digest of the request meant for that node, one new key per invocation, at most one error line per node.",
+ "Unique tokens and per-node payloads make replies identify their requests; reply delivery to an ended call is observed as an orphan quorum-function invocation.",
+ "runtime monitoring: online attribution oracle (unique ids) inside quorum functions over concurrent soaks","DESIGN.md 6 C05","soak")
+chk("C07","fault_enumeration",
+ "Fault grid over failing subsets x failure kinds (never started, stopped before/during/after, resets before/during/while the request is queued via a hook hold, refused, handler error with every status code) x QC/Async/Corr x dial mode; oracle on outcome, per-node error lines parsed from the error text, quorum-function log and completion (hang rule).",
+ "Port of a stopped server stays reserved (bound, not listening) so that refused really is refused; unavailable-type texts observed are listed in the evidence.",
+ "runtime monitoring: fault injection (server stop, TCP proxy reset/refuse, hook-held sender) with error-text and QF-log oracle","DESIGN.md 6 C07","faults")
+chk("C08","exploration",
+ "Grid over call kind x node behaviour (never answers, holds connection, stalled proxy, refused, reconnect into a tarpit, slow) x concurrent traffic x instant of the context end placed with hooks (before the call, queued, being written, write blocked by flow control, awaiting replies) x cancel/deadline; "
+ "hang rule from the logged context end with goroutine-dump witness; errors.Is(err, ctx.Err()) unless the node legitimately failed the call.",
+ "A manual context (Done/Err triggered by the harness) stands for cancel and deadline; latencies are reported, the verdict is the bounded hang rule.",
+ "runtime monitoring: hook-placed context ends, bounded-progress hang rule, error-matching oracle","DESIGN.md 6 C08","ctxend")
+chk("C10","fault_enumeration",
+ "Seeded stop/start sequences (down at creation, crash idle / with gated handler / twice, outages) with three back-off configurations incl. a fixed 6 s; probes with fresh contexts must reach the restarted server within 2B+W, a probe the server handled and answered must return within 3 s (< B); "
+ "server-side monitor: connect callback exactly once per stream and before the first handler, manager and per-node metadata present with the right values.",
+ "Server-side 'handled' event = puppet handler entry log; back-off wait is identified by the receiver parked in reconnect's select in the dump.",
+ "runtime monitoring: fault sequences with server-side event log, probe oracle, metadata monitor in the connect callback","DESIGN.md 6 C10","restart")
+chk("C12","fault_enumeration",
+ "Grid over send buffer x node states (connected, refused, server killed) x in-flight call kinds x strike point of Close placed with hooks x {single, concurrent, repeated Close}; servers live in a child process so every grpc/gorums goroutine of the client process belongs to the manager; "
+ "oracle: in-flight calls return, calls after Close return (hang rule), no client goroutine survives (dump diff against a baseline), server child reports no live stream, no panic.",
+ "Goroutines are attributed by frames/creation site in runtime.Stack output. Tarpit state only in thorough.",
+ "runtime monitoring: hook-placed Close, goroutine-dump residue check, hang rule, server-side stream liveness query","DESIGN.md 6 C12","closing")
+chk("C13","exploration",
+ "Codec round trips for every method in the linked registry (puppet + repository services) in both directions with protoreflect-filled random messages, metadata and statuses; hostile frames (mutations, truncation at every offset, length-prefix rewrites, method-name dictionary of non-method entities) decoded under recover; "
+ "a sample written by a raw gRPC client onto a live NodeStream of a separate server process that must survive.",
+ "Inputs are written to disk before risky calls; a fatal runtime error would be caught as a child crash.",
+ "runtime monitoring: round-trip equality oracle + panic/crash monitor over mutational fuzz, in-process and against a live server process","DESIGN.md 6 C13","codec")
+chk("C14","exploration",
+ "Model-based random programs of configuration-building operations over address pools with duplicates, overlaps, foreign ids and FNV collisions found at run time; set-model oracle on contents, order, agreement of accessors, operand immutability, node-object identity, addresses; live sub-check: one stream per server for 25 overlapping configurations.",
+ "After a failed creation the pool contents are re-read (not specified by the property).",
+ "runtime monitoring: reference set model compared after every step of random API programs","DESIGN.md 6 C14","configs")
+chk("C18","exploration",
+ "Soaks of all call kinds ending in every way (incl. oversized writes with a never-ending context, restarts) and, at quiescent points, the per-node router count (read-only accessor) and goroutines of per-call library functions must be zero; survivors are reported with their frames.",
+ "Router count via build-tag accessor under the channel's own lock; goroutines attributed by function name in the dump.",
+ "runtime monitoring: structural invariant (router map empty, no per-call goroutines) checked at quiescent points of soaks","DESIGN.md 6 C18","soak")
+chk("C19","exploration",
+ "Tens of thousands of sorts of node slices drawn from a pool of real nodes (repeated ids/ports, last-error patterns) by every key sequence; oracle: permutation + lexicographic order under model keys; strict-weak-order laws per key on all pairs.",
+ "Model keys: numeric id, numeric port, LastErr()!=nil.",
+ "runtime monitoring: reference-model comparison of sort results + algebraic law checks","DESIGN.md 6 C19","sorters")
 chk("C11","exploration",
  "Gated correctable executions (8 variants incl. server streams, per-node, custom type) with snapshots of raw/typed Get, Done and Watch(-1..max+1) taken from inside the next quorum-function invocation (logical time) and after completion, "
  "compared with a reference model computed from the observed invocation log (publish on higher level, value identity, final on done/exhaustion/ctx end, stability, watcher release).",
